@@ -290,6 +290,6 @@ pub fn run(r: &mut Runner) {
         groups.extend(crate::hist::binary_groups(&[Op::mul_f, Op::f_mul], &pairs[..2]));
         crate::hist::explore(r, "histories: * (operand orders, signs, assign forms)", &groups, 3, &hist_judge, 14u64 << 55);
         // cross-family histories: the same judged calls, preceded by every other public function on the same operands
-        crate::hist::explore_mixed(r, "cross-family histories: any public call, then * (operand orders, signs, assign forms)", &groups[..groups.len().min(2)], 2, &hist_judge, (14u64 << 55) + (1u64 << 53));
+        crate::hist::explore_mixed(r, "cross-family histories: any public call, then * (operand orders, signs, assign forms)", &groups, 2, &hist_judge, (14u64 << 55) + (1u64 << 53));
     }
 }
